@@ -38,6 +38,10 @@ pub enum Case11 {
         run: u8,
         probes: Vec<Probe>,
         now_offset: i32,
+        /// With net = Testnet: use the validation crate's testnet3 parameters (no BIP94) instead
+        /// of testnet4 (the canister itself only uses testnet4).
+        #[serde(default)]
+        testnet3: bool,
     },
     /// Mined regtest chain validated end to end.
     Regtest {
@@ -163,8 +167,9 @@ impl Property for C11 {
             0u8..4,
             prop::collection::vec(probe, 4..40),
             prop_oneof![Just(0i32), -8000i32..8000],
+            prop_oneof![3 => Just(false), 1 => Just(true)],
         )
-            .prop_map(|(net, len, period_bits, dts, run, probes, now_offset)| Case11::Synthetic { net, len, period_bits, dts, run, probes, now_offset });
+            .prop_map(|(net, len, period_bits, dts, run, probes, now_offset, testnet3)| Case11::Synthetic { net, len, period_bits, dts, run, probes, now_offset, testnet3: testnet3 && net == Net::Testnet });
         let regtest = (
             1u8..25,
             prop::collection::vec(prop_oneof![5 => 1u16..1200, 2 => 1201u16..4000], 1..12),
@@ -193,7 +198,7 @@ impl Property for C11 {
         ]
     }
     fn required_classes(&self, tier: Tier) -> Vec<&'static str> {
-        let mut v = vec!["probe_at_retarget_boundary", "gap_over_20_minutes", "walk_back_ge_2", "timestamp_on_mtp_edge", "timestamp_on_2h_edge", "regtest_accepted", "regtest_rejected", "retarget_clamped", "overflowing_compact_target"];
+        let mut v = vec!["probe_at_retarget_boundary", "gap_over_20_minutes", "walk_back_ge_2", "timestamp_on_mtp_edge", "timestamp_on_2h_edge", "regtest_accepted", "regtest_rejected", "retarget_clamped", "overflowing_compact_target", "testnet3_parameters"];
         if tier == Tier::Thorough {
             v.push("second_retarget_boundary");
         }
@@ -205,7 +210,12 @@ impl Property for C11 {
     fn run(&self, case: &Case11) -> Outcome {
         let mut out = Outcome::default();
         match case {
-            Case11::Synthetic { net, len, period_bits, dts, run, probes, now_offset } => {
+            Case11::Synthetic { net, len, period_bits, dts, run, probes, now_offset, testnet3 } => {
+                let btc_net = if *testnet3 { bitcoin::Network::Testnet } else { net.btc() };
+                let bip94 = pm::enforce_bip94(*net) && !*testnet3;
+                if *testnet3 {
+                    out.class("testnet3_parameters");
+                }
                 let chain = Rc::new(build_synthetic(*net, *len, period_bits, dts, *run));
                 let chain_hash = fnv(format!("{:?}{:?}{:?}{}", net, period_bits, dts, run).as_bytes());
                 let lim = limit_bits(*net);
@@ -214,11 +224,11 @@ impl Property for C11 {
                     let prev = chain.headers[ph as usize];
                     let ts = (prev.time as i64 + p.dt as i64).clamp(1, u32::MAX as i64) as u32;
                     let view = View { chain: chain.clone(), tip: ph };
-                    let validator = HeaderValidator::new(view, net.btc());
+                    let validator = HeaderValidator::new(view, btc_net);
                     let at = |h: u32| Hdr { bits: chain.headers[h as usize].bits.to_consensus(), time: chain.headers[h as usize].time };
                     out.checks += 1;
                     let got = crate::sut::guarded(|| validator.verif_next_target(&prev, ph, ts));
-                    let want_bits = pm::next_work_required(*net, ph, ts, &at);
+                    let want_bits = pm::next_work_required_ext(*net, bip94, ph, ts, &at);
                     let want = pm::from_compact(want_bits);
                     match got {
                         Err(e) => out.fail(format!("{net:?} height {}: required-target computation trapped: {e}", ph + 1)),
